@@ -27,7 +27,7 @@ DB_METHODS = ("execute", "executescript", "commit", "close", "rollback")
 
 
 class Frame(object):
-    __slots__ = ("func", "fid", "self_term", "depth", "cells", "has_closure")
+    __slots__ = ("func", "fid", "self_term", "depth", "cells", "has_closure", "callsite")
     _next = [0]
 
     def __init__(self, func, self_term, depth, cells=None):
@@ -38,6 +38,7 @@ class Frame(object):
         self.depth = depth
         self.cells = cells  # enclosing Frame (for closures) or None
         self.has_closure = False
+        self.callsite = None   # set for SQL pass-through helpers: the caller's site
 
 
 class State(object):
